@@ -3,6 +3,7 @@ import PEval.Gen.IsTarget
 import PEval.Model.FilterTable
 import PEval.Lemmas.FilterTable
 import PEval.Lemmas.FilterMono
+import PEval.Lemmas.FilterResults
 /-!
 # C10 — object filtering keeps exactly the objects satisfying the configured criteria
 
@@ -368,5 +369,147 @@ example : ∀ t, Gen.IsTarget.tree = some t → eval t (valuationOf exP (exObj 1
   intro t ht; rw [isTarget_code_table_eq_isTarget t ht]; decide +kernel
 
 end Table
+
+/-! ## the RESULT level (`filter_object_results`): totality, monotonicity, frame invariance
+
+`filterResults_both` / `filterResults_idem` are stated on `filterResults P rs = .ok ks`.  Here: the filter RETURNS inside
+the contract (`filterResults_total`), widening a bound never removes a kept result (`filterResults_mono`, lifts
+`filter_mono`), and filtering commutes with rendering the whole scene (estimates AND ground truths) into the map frame
+(`filterResults_frame_invariant`, lifts `filter_frame_invariant`). -/
+section Results
+
+/-- inside the documented contract (`WFParams`; every estimate complete for the estimate-side arguments, every ground
+truth for the ground-truth-side arguments) `filter_object_results` returns -/
+theorem filterResults_total {P : Params} {rs : List Res} (hP : WFParams P) (hO : ∀ r ∈ rs, WFRes P r) :
+    ∃ ks, filterResults P rs = .ok ks := filterResults_total' hP hO
+
+/-- widening any bound (same labels, attributes, uuids) never removes a kept RESULT: the narrower answer is an
+order-preserving sub-list of the wider one -/
+theorem filterResults_mono {P P' : Params} (w : Wider P P') {rs ks ks' : List Res}
+    (h : filterResults P rs = .ok ks) (h' : filterResults P' rs = .ok ks') : ks.Sublist ks' := by
+  obtain ⟨_, hks⟩ := filterE_ok h
+  obtain ⟨hall', hks'⟩ := filterE_ok h'
+  rw [hks, hks']
+  apply filter_sublist_of_imp_mem
+  intro r hr hd
+  have hb := of_decide_eq_true hd
+  obtain ⟨h1, h2, h3⟩ := (resultTarget_iff hb).1 rfl
+  obtain ⟨b, hb'⟩ := hall' r hr
+  have : b = true := (resultTarget_iff hb').2
+    ⟨criteria_wider (wider_est w) h1, fun g hg => criteria_wider (wider_gt w) (h2 g hg),
+      fun hn us hu => h3 hn us (by rw [← w.uuids]; exact hu)⟩
+  subst this
+  exact decide_eq_true hb'
+
+/-- one result: rendering estimate and ground truth into the map frame under any ego pose (unit yaw, any translation)
+and filtering with the transform supplied gives the same verdict, the same exception included -/
+theorem resultTarget_frame_invariant (P : Params) (r : Res) (e : Pose) (he : e.c * e.c + e.s * e.s = 1)
+    (hE : r.est.frame = "base_link" ∧ r.est.pos ≠ none)
+    (hG : ∀ g, r.gt = some g → g.frame = "base_link" ∧ g.pos ≠ none) :
+    resultTarget { P with hasTransforms := true } (Res.renderMap e r) = resultTarget P r := by
+  have h1 : isTarget (estParams { P with hasTransforms := true }) (renderMap e r.est) = isTarget (estParams P) r.est :=
+    frame_invariant (estParams P) r.est e he hE.1 hE.2
+  unfold resultTarget
+  simp only [Res.renderMap]
+  rw [h1]
+  cases he' : isTarget (estParams P) r.est with
+  | error k => rfl
+  | ok b =>
+    cases hg : r.gt with
+    | none => cases b <;> rfl
+    | some g =>
+      have h2 : isTarget (gtParams { P with hasTransforms := true }) (renderMap e g) = isTarget (gtParams P) g :=
+        frame_invariant (gtParams P) g e he (hG g hg).1 (hG g hg).2
+      cases b
+      · rfl
+      · simp only [Option.map_some]; exact h2
+
+/-- the whole result filter commutes with rendering a BASE_LINK scene into the MAP frame: the same results are kept, in
+the same order, and the same exception (if any) is raised -/
+theorem filterResults_frame_invariant (P : Params) (rs : List Res) (e : Pose) (he : e.c * e.c + e.s * e.s = 1)
+    (h : ∀ r ∈ rs, (r.est.frame = "base_link" ∧ r.est.pos ≠ none) ∧
+      ∀ g, r.gt = some g → g.frame = "base_link" ∧ g.pos ≠ none) :
+    filterResults { P with hasTransforms := true } (rs.map (Res.renderMap e)) =
+      (filterResults P rs).map (List.map (Res.renderMap e)) :=
+  filterE_map (fun r hr => resultTarget_frame_invariant P r e he (h r hr).1 (h r hr).2)
+
+/-! ### non-vacuity and defective variants -/
+
+def exRP : Params := { exP with isGt := false, uuids := some ["u"], conf := some [1/4, 1/4] }
+def exRWide : Params := { exRP with maxX := some [15, 20], maxY := none, minPts := some [0, 0] }
+def exG (i : Nat) (l : String) (x y : Rat) (u : String) : Obj := { exObj i l x y with uuid := some u }
+/-- results: paired and kept; paired, estimate beyond max_x; GT-less (dropped because target uuids are configured);
+paired, ground truth with a foreign uuid; FP-labelled pair far away -/
+def exRs : List Res :=
+  [⟨0, exObj 0 "AutowareLabel.CAR" 5 5, some (exG 10 "AutowareLabel.CAR" 5 6 "u")⟩,
+   ⟨1, exObj 1 "AutowareLabel.CAR" 12 0, some (exG 11 "AutowareLabel.CAR" 9 0 "u")⟩,
+   ⟨2, exObj 2 "AutowareLabel.CAR" 1 1, none⟩,
+   ⟨3, exObj 3 "AutowareLabel.BICYCLE" 2 2, some (exG 12 "AutowareLabel.BICYCLE" 2 2 "other")⟩,
+   ⟨4, exObj 4 "AutowareLabel.FP" 100 100, some (exG 13 "AutowareLabel.FP" 100 100 "zz")⟩]
+
+example : (filterResults exRP exRs).map (List.map (·.id)) = .ok [0, 4] := by decide +kernel
+example : (filterResults exRWide exRs).map (List.map (·.id)) = .ok [0, 1, 4] := by decide +kernel
+example : (filterResults { exRP with uuids := none } exRs).map (List.map (·.id)) = .ok [0, 2, 3, 4] := by decide +kernel
+
+example : Wider exRP exRWide := by
+  constructor <;> simp [exRP, exRWide, exP, OptRel, Pointwise]
+  norm_num
+
+example : WFParams exRP := ⟨⟨_, rfl, by simp, by simp [exRP, exP], by simp [exRP, exP], by simp [exRP, exP],
+  by simp [exRP, exP], by simp [exRP, exP], by simp [exRP, exP]⟩⟩
+
+example : ∀ r ∈ exRs, WFRes exRP r := by
+  intro r hr
+  simp only [exRs, List.mem_cons, List.not_mem_nil, or_false] at hr
+  rcases hr with rfl | rfl | rfl | rfl | rfl <;>
+    exact ⟨⟨by simp [exObj], by simp [exRP, exP, estParams], by simp [estParams]⟩,
+      fun g hg => by
+        simp only [Option.some.injEq, reduceCtorEq] at hg
+        try subst hg
+        all_goals exact ⟨by simp [exG, exObj], by simp [exRP, exP, gtParams], by simp [exG, exObj]⟩⟩
+
+/-- the hypotheses of `filterResults_frame_invariant` on the example, and both sides evaluated for the pose
+`(3/5, 4/5)` + `(7, −2)` -/
+example : (∀ r ∈ exRs, (r.est.frame = "base_link" ∧ r.est.pos ≠ none) ∧
+      ∀ g, r.gt = some g → g.frame = "base_link" ∧ g.pos ≠ none) ∧
+    (filterResults { exRP with hasTransforms := true } (exRs.map (Res.renderMap ⟨3/5, 4/5, 7, -2⟩))).map (List.map (·.id))
+      = .ok [0, 4] := by
+  refine ⟨?_, by decide +kernel⟩
+  intro r hr
+  simp only [exRs, List.mem_cons, List.not_mem_nil, or_false] at hr
+  rcases hr with rfl | rfl | rfl | rfl | rfl <;>
+    exact ⟨⟨rfl, by simp [exObj]⟩, fun g hg => by
+      simp only [Option.some.injEq, reduceCtorEq] at hg
+      try subst hg
+      all_goals exact ⟨rfl, by simp [exG, exObj]⟩⟩
+
+/-- A DEFECTIVE variant: the ground truth is judged by the coordinates of its OWN frame (as if it were a `base_link`
+object), i.e. the transform is not applied on the ground-truth side.  Frame invariance fails for it on the example
+(pose `(3/5, 4/5)` + `(100, −2)`): in the map rendering result 0 is lost. -/
+def resultTarget_gtRaw (P : Params) (r : Res) : Except Err Bool :=
+  match isTarget (estParams P) r.est with
+  | .error e => .error e
+  | .ok e =>
+    match e, r.gt with
+    | true, some g => isTarget (gtParams P) { g with frame := "base_link" }
+    | false, some _ => .ok false
+    | e, none => .ok (if truthy P.uuids then false else e)
+
+example :
+    (filterE (resultTarget_gtRaw { exRP with hasTransforms := true }) (exRs.map (Res.renderMap ⟨3/5, 4/5, 100, -2⟩))).map
+        (List.map (·.id)) = .ok [4] ∧
+      ((filterE (resultTarget_gtRaw exRP) exRs).map (List.map (Res.renderMap ⟨3/5, 4/5, 100, -2⟩))).map (List.map (·.id))
+        = .ok [0, 4] ∧
+      (filterResults { exRP with hasTransforms := true } (exRs.map (Res.renderMap ⟨3/5, 4/5, 100, -2⟩))).map
+        (List.map (·.id)) = .ok [0, 4] := by
+  decide +kernel
+
+/-- A DEFECTIVE variant that forgets the ground truth (keeps a result whenever its estimate passes): `filterResults_mono`
+still holds for it, `filterResults_both` does not — result 3 (foreign ground-truth uuid) is kept -/
+def resultTarget_estOnly (P : Params) (r : Res) : Except Err Bool := isTarget (estParams P) r.est
+
+example : (filterE (resultTarget_estOnly exRP) exRs).map (List.map (·.id)) = .ok [0, 2, 3, 4] := by decide +kernel
+
+end Results
 
 end PEval.C10
